@@ -165,10 +165,8 @@ func Occupancy(api *SimAPI) map[string]*NodeOcc {
 		occ.Pods++
 		if IsReservationPod(p) {
 			if g := p.Labels[GPUGroupLabel]; g != "" {
+				// a reservation pod alone does not make a device "in use": sharers do
 				occ.HasResPod[g] = true
-				if occ.Groups[g] == nil {
-					occ.Groups[g] = &GroupOcc{}
-				}
 			}
 			continue
 		}
